@@ -85,10 +85,9 @@ def _show(d):
     return ','.join('inf' if np.isinf(v) else enc_rat(float(v)) for v in d) if len(d) else '-'
 
 
-def part_m(ctx, graphs):
-    from pyamg.aggregation import aggregate as AG
+def part_m(ctx, graphs, defer=None):
     rng = ctx.np_rng
-    items = []
+    jobs = []
     for t, (M, gkind) in enumerate(graphs):
         M = np.array(M)
         n = M.shape[0]
@@ -99,6 +98,25 @@ def part_m(ctx, graphs):
         ratio = float(rng.choice([0.125, 0.25, 0.5, 0.75, 1.0]))
         maxiter = int(rng.integers(0, 5))
         seed = int(rng.integers(2**31))
+        jobs.append((n, ap, aj, data, kind, measure, ratio, maxiter, seed))
+    run_jobs(ctx, jobs, defer)
+
+
+def replay_m(ctx, c):
+    n = int(c['n'])
+    data = np.array(c['re'], dtype=float) + 1j * np.array(c['im'], dtype=float)
+    if c.get('dtype') == 'float64':
+        data = np.ascontiguousarray(data.real)
+    measure = 'None' if c['measure'] is None else c['measure']
+    print('replaying lloyd_aggregation on', c.get('dtype'), 'values, measure =', measure, 'ratio =', c['ratio'], 'maxiter =', c['maxiter'])
+    run_jobs(ctx, [(n, np.array(c['ap'], dtype=np.int32), np.array(c['aj'], dtype=np.int32), data, 'replay', measure,
+                    float(c['ratio']), int(c['maxiter']), int(c['seed']))])
+
+
+def run_jobs(ctx, jobs, defer=None):
+    from pyamg.aggregation import aggregate as AG
+    items = []
+    for (n, ap, aj, data, kind, measure, ratio, maxiter, seed) in jobs:
         np.random.seed(seed)
         perm = np.random.permutation(n)
         C = sp.csr_array((data.copy(), aj.copy(), ap.copy()), shape=(n, n))
@@ -125,52 +143,61 @@ def part_m(ctx, graphs):
         finite_edges = [(i, int(aj[jj])) for i in range(n) for jj in range(ap[i], ap[i + 1]) if np.isfinite(d[jj])]
         items.append((line, out, res, case, kind, measure, d, finite_edges, n, maxiter))
         items.append((f'ext_c12z_measure {measure} {enc_crats(data)}', _show(d), None, case, kind, measure, d, None, n, maxiter))
-    outs = ctx.lean([it[0] for it in items]) if items else []
-    for (line, out, res, case, kind, measure, d, finite_edges, n, maxiter), o in zip(items, outs):
-        raw = finite_edges is None
-        ctx.case(key=_key(line), nontrivial=len(d) > 0,
-                 sample={'request': line[:240], 'model': o[:120], 'impl': out[:120]} if ctx.evaluations % 97 == 0 else None)
-        ctx.feat('meas:' + ('table:' if raw else 'agg:') + measure)
-        if not raw:
-            ctx.feat('meas:values:' + kind)
-            if np.isinf(d).any():
-                ctx.feat('meas:inf-edges')
-        if o == 'unmodelled':
-            ctx.feat('meas:unmodelled')
-            continue
-        if o != out:
-            ctx.corr(('measure table' if raw else 'lloyd_aggregation (complex / stored zeros)') + ' vs C12ZM model', case, o[:400], out[:400])
-        if raw:
-            continue
-        # the property itself: a valid partition; assigned = reachable from a returned centre along FINITE edges
-        neg = bool(len(d)) and float(np.min(d)) < 0
-        e = None
-        if isinstance(res, str):
-            if not (out == 'ValueError' and neg and 'positive measure' in res):
-                e = f'raised {out}: {res}'
-        elif neg:
-            e = 'a negative edge length was accepted'
-        else:
-            from props.c12 import check_aggop
-            e = check_aggop(res[0], res[1], n, 'lloyd')
-            if not e and maxiter >= 1:
-                D = res[0].toarray()
-                seen = np.zeros(n, dtype=bool)
-                todo = [int(c) for c in res[1]]
-                seen[todo] = True
-                adj = {}
-                for (i, j) in finite_edges:
-                    adj.setdefault(i, []).append(j)
-                while todo:
-                    i = todo.pop()
-                    for j in adj.get(i, []):
-                        if not seen[j]:
-                            seen[j] = True
-                            todo.append(j)
-                for i in range(n):
-                    if bool(seen[i]) != (D[i].sum() == 1):
-                        e = (f'node {i} can{"" if seen[i] else "not"} reach a centre along edges of finite length but is '
-                             f'{"un" if D[i].sum() == 0 else ""}assigned')
-                        break
-        if e:
-            ctx.violation(f'lloyd_aggregation({case["measure"]}, ratio={case["ratio"]}, maxiter={maxiter}) on {kind}: {e}', case)
+    def finish(outs):
+        for (line, out, res, case, kind, measure, d, finite_edges, n, maxiter), o in zip(items, outs):
+            raw = finite_edges is None
+            ctx.case(key=_key(line), nontrivial=len(d) > 0,
+                     sample={'request': line[:240], 'model': o[:120], 'impl': out[:120]} if ctx.evaluations % 97 == 0 else None)
+            ctx.feat('meas:' + ('table:' if raw else 'agg:') + measure)
+            if not raw:
+                ctx.feat('meas:values:' + kind)
+                if np.isinf(d).any():
+                    ctx.feat('meas:inf-edges')
+            if o == 'unmodelled':
+                ctx.feat('meas:unmodelled')
+                continue
+            if o != out:
+                ctx.corr(('measure table' if raw else 'lloyd_aggregation (complex / stored zeros)') + ' vs C12ZM model', case, o[:400], out[:400])
+            if raw:
+                continue
+            # the property itself: a valid partition; assigned = reachable from a returned centre along FINITE edges
+            neg = bool(len(d)) and float(np.min(d)) < 0
+            e = None
+            if isinstance(res, str):
+                if not (out == 'ValueError' and neg and 'positive measure' in res):
+                    e = f'raised {out}: {res}'
+            elif neg:
+                e = 'a negative edge length was accepted'
+            else:
+                from props.c12 import check_aggop
+                e = check_aggop(res[0], res[1], n, 'lloyd')
+                if not e and maxiter >= 1:
+                    D = res[0].toarray()
+                    seen = np.zeros(n, dtype=bool)
+                    todo = [int(c) for c in res[1]]
+                    seen[todo] = True
+                    adj = {}
+                    for (i, j) in finite_edges:
+                        adj.setdefault(i, []).append(j)
+                    while todo:
+                        i = todo.pop()
+                        for j in adj.get(i, []):
+                            if not seen[j]:
+                                seen[j] = True
+                                todo.append(j)
+                    for i in range(n):
+                        if bool(seen[i]) != (D[i].sum() == 1):
+                            e = (f'node {i} can{"" if seen[i] else "not"} reach a centre along edges of finite length but is '
+                                 f'{"un" if D[i].sum() == 0 else ""}assigned')
+                            break
+            if e:
+                ctx.violation(f'lloyd_aggregation({case["measure"]}, ratio={case["ratio"]}, maxiter={maxiter}) on {kind}: {e}', case)
+
+    _dispatch(ctx, [it[0] for it in items], finish, defer)
+
+
+def _dispatch(ctx, lines, finish, defer):
+    if defer is None:
+        finish(ctx.lean(lines) if lines else [])
+    else:
+        defer.append((lines, finish))
